@@ -660,7 +660,12 @@ class Interp(object):
     return k(st)
 
   def ex_Global(self, node, st, ctx, k):
-    raise Unsupported("global statement")
+    # module globals written by the function live in a per-path overlay (like class attributes)
+    fr = st.frames[ctx.fid]
+    g = set(fr.get("$globals", ()))
+    g.update(node.names)
+    fr["$globals"] = frozenset(g)
+    return k(st)
 
   def ex_Import(self, node, st, ctx, k):
     import importlib
@@ -773,7 +778,11 @@ class Interp(object):
 
   def assign(self, target, v, st, ctx, k):
     if isinstance(target, ast.Name):
-      st.frames[ctx.fid][target.id] = v
+      fr = st.frames[ctx.fid]
+      if target.id in fr.get("$globals", ()):
+        st.ghost[("$global", ctx.fn.module, target.id)] = v
+        return k(st)
+      fr[target.id] = v
       return k(st)
     if isinstance(target, ast.Attribute):
       return self.ev(target.value, st, ctx,
@@ -1061,6 +1070,14 @@ class Interp(object):
     fid = ctx.fid
     fn = ctx.fn
     fr = st.frames[fid]
+    gk = ("$global", fn.module, name)
+    if gk in st.ghost and (name in fr.get("$globals", ()) or name not in fr):
+      if name in fr.get("$globals", ()) or name not in fn_locals(fn.node):
+        return k(st, st.ghost[gk])
+    if name in fr.get("$globals", ()):
+      if name in fn.globs:
+        return k(st, fn.globs[name])
+      return self.raise_exc(st, ctx, NameError, name, node)
     if name in fr:
       v = fr[name]
       if v is _ABSENT:
